@@ -894,14 +894,12 @@ def _hash_facts(r, m, func, qual, suffix_sources, keep_names, what):
     for x in hashed:
         src = sources(x.value, func, stop={hname})
         txt = norm(x.value)
-        uses_hex = any(isinstance(y, ast.Attribute) and y.attr == 'hexdigest' for y in ast.walk(x.value)) or any(
-            isinstance(y, ast.Attribute) and y.attr == 'hexdigest'
-            for nm in _names_of(x.value) for v in _local_assignments(func).get(nm, []) if v is not None for y in ast.walk(v))
-        keeps = any(k in src for k in keep_names) or any(k in txt for k in keep_names)
-        # symbolic shape of the name: readable parts + digest(input).  A readable part that is cut (slice / split / %)
-        # loses information; that is only harmless if the digest input is the complete, uncut full name
         keepset = {k for k in keep_names if k.isidentifier()}
         full_ret = _inline(x.value, func, stop=set(suffix_sources) | keepset | {hname})
+        uses_hex = any(isinstance(y, ast.Attribute) and y.attr == 'hexdigest' for y in ast.walk(full_ret))
+        keeps = any(k in src for k in keep_names) or any(k in norm(full_ret) for k in keep_names)
+        # symbolic shape of the name: readable parts + digest(input).  A readable part that is cut (slice / split / %)
+        # loses information; that is only harmless if the digest input is the complete, uncut full name
         cut = []
         for y in ast.walk(full_ret):
             if isinstance(y, ast.Subscript) and isinstance(y.slice, ast.Slice) and \
